@@ -16,3 +16,6 @@ func VerifC12NewService(conf *config.Configuration, cch cache.Cache, log zerolog
 
 // VerifC12PipelineError shows the pipeline error kept by the request context.
 func (r *RequestContext) VerifC12PipelineError() error { return r.err }
+
+// VerifC12NewHandler creates the handler of the Check RPC around the given rule executor.
+func VerifC12NewHandler(exec rule.Executor) *Handler { return &Handler{e: exec} }
